@@ -1,2 +1,61 @@
-(* placeholder *)
-From Snow Require Import Model.Broker.
+(* C02 — The broker never cross-wires offers, answers or bridges.
+   Statements over the interleaving machine of Model/Broker.v: [reachable v br s] = s is reached from
+   the empty broker with bridge list br by ANY finite sequence of labels (arrivals of proxy polls,
+   client polls and proxy answers with any sids / offers / answers / fingerprints, timer firings,
+   select choices, rendezvous), for both protocol versions. An entry is one registered proxy poll;
+   the client that popped it is stored inside it, so "the poll that was handed that client's offer"
+   is the entry holding the client. Proofs: Proofs/BrokerProofs.v, BrokerSteps.v, BrokerThms.v. *)
+From Coq Require Import List NArith ZArith Bool.
+From Snow Require Import Model.Broker Proofs.BrokerProofs Proofs.BrokerSteps Proofs.BrokerThms.
+Import ListNotations.
+Open Scope N_scope.
+
+(* Whenever a client is given an answer a, an answer request carrying exactly a was made under the
+   session id of the very poll that received this client's offer; and what that poll returned (if it
+   returned a match) is this client's offer. *)
+Theorem C02_answer_routing : forall v br s p e c a,
+  reachable v br s -> nth_error (entries s) p = Some e -> e_cl e = Some c -> client_answered c a ->
+  (exists aid, In (aid, e_sid e, a) (answer_log s)) /\
+  (forall m, e_w e = W_Done (PMatch m) -> m_offer m = c_offer c).
+Proof. exact answer_routing. Qed.
+
+(* Each offer is handed to at most one poll (a client sits in at most one entry); each poll holds at
+   most one client and returns at most one response by construction of [entry]. *)
+Theorem C02_offer_once : forall v br s p q e1 e2 c1 c2,
+  reachable v br s -> nth_error (entries s) p = Some e1 -> nth_error (entries s) q = Some e2 ->
+  e_cl e1 = Some c1 -> e_cl e2 = Some c2 -> c_id c1 = c_id c2 -> p = q.
+Proof. exact offer_once. Qed.
+
+(* A match response carries the offer and NAT type of the client that claimed this poll and the relay
+   URL configured for the bridge fingerprint that client named. *)
+Theorem C02_relay_url : forall v br s p e m,
+  reachable v br s -> nth_error (entries s) p = Some e -> e_w e = W_Done (PMatch m) ->
+  exists c, e_cl e = Some c /\ m_offer m = c_offer c /\ m_nat m = c_nat c /\ lookup (c_fp c) br = Some (m_url m).
+Proof. exact match_response. Qed.
+
+(* A client naming a fingerprint absent from the bridge list is never matched: no entry changes. *)
+Theorem C02_unknown_bridge : forall v s n fp o ch s',
+  step v s (L_Client n fp o ch) = Some s' -> lookup fp (bridges s) = None ->
+  ch = None /\ entries s' = entries s /\ idmap s' = idmap s /\
+  done_clients s' = (next_cid s, n, fp, o, CBadFingerprint) :: done_clients s.
+Proof. exact unknown_bridge_never_matched. Qed.
+
+(* The invariant behind these statements holds in every reachable state of both versions. *)
+Theorem C02_invariant : forall v br s, reachable v br s -> Inv v s.
+Proof. exact reachable_inv. Qed.
+
+(* non-vacuity: a run with two polls, two clients and two answers in which both clients are answered *)
+Example C02_example :
+  exists s, run V1 (init [(7, 9); (8, 10)])
+    [L_Poll 1 NatUnrestricted 1 0; L_Poll 2 NatRestricted 1 3;
+     L_Client NatRestricted 7 100 (Some 0%nat); L_Client NatUnrestricted 8 101 (Some 1%nat);
+     L_RvOffer 1; L_RvOffer 0; L_RvForward 0; L_RvForward 1;
+     L_Answer 2 502; L_Answer 1 501; L_AnswerPut 0; L_AnswerPut 1;
+     L_CTakeAnswer 0; L_CTakeAnswer 1; L_CCleanup 1; L_CCleanup 0] = Some s /\
+  quiescent s = true /\
+  (exists e c, nth_error (entries s) 0 = Some e /\ e_cl e = Some c /\ client_answered c 501) /\
+  (exists e c, nth_error (entries s) 1 = Some e /\ e_cl e = Some c /\ client_answered c 502).
+Proof.
+  eexists. split; [vm_compute; reflexivity|]. split; [vm_compute; reflexivity|].
+  split; eexists; eexists; (split; [vm_compute; reflexivity|]); (split; [reflexivity|]); right; reflexivity.
+Qed.
